@@ -53,8 +53,9 @@ struct GuardHarness : HarnessBase {
 	void apply(uint32_t op) {
 		uint32_t k = op & 0xff, a = (op >> 8) & 0xf, b = op >> 12;
 		switch(k) {
-		case C_LOCKING: new(store[a]) G(m[b]); ref[a] = {true, (int)b, true}; break;
-		case C_DEFER: new(store[a]) G(frg::dont_lock, m[b]); ref[a] = {true, (int)b, false}; break;
+		// (for unique_lock, mutex 1 is taken through the frg::guard() helper functions)
+		case C_LOCKING: if constexpr(!Shared) { if(b == 1) { new(store[a]) G(frg::guard(&m[b])); ref[a] = {true, (int)b, true}; break; } } new(store[a]) G(m[b]); ref[a] = {true, (int)b, true}; break;
+		case C_DEFER: if constexpr(!Shared) { if(b == 1) { new(store[a]) G(frg::guard(frg::dont_lock, &m[b])); ref[a] = {true, (int)b, false}; break; } } new(store[a]) G(frg::dont_lock, m[b]); ref[a] = {true, (int)b, false}; break;
 		case C_ADOPT: if(Shared) m[b].lock_shared(); else m[b].lock(); new(store[a]) G(frg::adopt_lock, m[b]); ref[a] = {true, (int)b, true}; break;
 		case C_DEFAULT: new(store[a]) G(); ref[a] = {true, -1, false}; break;
 		case LOCK: g(a).lock(); ref[a].locked = true; break;
